@@ -1,7 +1,7 @@
 """C02 - every trial is placed by the AGP decision rule computed from all previous trials."""
 import numpy as np
 
-from vlib import scenario, record, agp_model
+from vlib import ambient, scenario, record, agp_model
 
 LEVEL = "exploration"
 RULE = ("seeded scenarios (objective family x box x r x eps x budget x density x call pattern) run through the real "
@@ -53,10 +53,14 @@ def cases(tier, seed):
                 scn["pattern"] = [["solve"], ["iter", k2], ["local", 7], ["iter", 9]]
             scn["refined_midway"] = True
         out.append(scn)
+    # workloads written by the repository's authors (shipped examples, solving tests) under the same oracle
+    out += ambient.ambient_cases(tier)
     return out
 
 
 def run_case(scn):
+    if "ambient" in scn:
+        return ambient.run_ambient_case(scn, "C02")
     t = record.run_solver(scn, listener=True)
     if t.fp_exhausted:
         return {"violations": [], "obs": {"fp_domain_exhausted": 1}, "skip": "fp-domain-exhausted"}
